@@ -41,4 +41,17 @@ def comparam_count():
 
 case("C18.R2/print_dl_metrics/comparams_refs-typo", comparam_count,
      expect=lambda r: r[0] > 0 and r[1] == "0")
+
+def deleted_in_empty_layer():
+    # a new layer without any service: every service of the old layer has been deleted
+    class Fake:
+        short_name = dl_new.short_name
+        variant_type = dl_new.variant_type
+        services = type(dl_new.services)([])
+    res = Comparison().compare_diagnostic_layers(Fake(), dl_old)  # type: ignore[arg-type]
+    return (len(dl_old.services), [s.short_name for s in res["deleted_services"]])
+
+
+case("C18.R4/Comparison.compare_diagnostic_layers/deleted-check-nested", deleted_in_empty_layer,
+     expect=lambda r: r[0] > 0 and r[1] == [])
 finish()
